@@ -10,7 +10,7 @@ RULE = ("p-value vectors with j = 2..6 in every kind of order (sorted, reversed,
         "the vector is not sorted ascending (the sorting permutation is not the identity) — non-involutive orders "
         "are generated on purpose; distinct by (pvalues, distr, combine, plus1)")
 LEVEL = ("theorems fwer_attach (adjusted value of sorted position k goes to hypothesis order[k]), fwer_first, "
-         "fwer_last, fwer_sorted_mono, fwer_rejects for every input and sorting permutation; model validated "
+         "fwer_last, fwer_sorted_mono, fwer_rejects for every input and sorting permutation; Relabel.fwer_relabel (for distinct raw p-values, relabelling hypotheses and columns together permutes the output identically) for every relabelling; model validated "
          "against npc.fwer_minp")
 ASSUMPTIONS = ["Fisher products in doubles: cases with an exact tie between different p-vectors in any nested npc call are excluded and counted",
                "np.argsort's choice among tied p-values is taken from NumPy and checked to be a sorting permutation by the model"]
